@@ -339,7 +339,7 @@ func (prop) Run(c core.Case) core.Outcome {
 		orig := append([]byte(nil), img...)
 		i, err := cbfs.NewImage(bytes.NewReader(img))
 		if c.Args["nomodel"] != "1" { // the bundled 256 KiB ROM is too large for the list-based model
-			M("list", "list "+core.Hex(orig), showImage(i, err))
+			M("list", vreq("list "+core.Hex(orig)), showImage(i, err))
 		}
 		out.Class = "image:" + core.ErrClass(err)
 		if err != nil {
@@ -352,6 +352,9 @@ func (prop) Run(c core.Case) core.Outcome {
 			presentChecks(&out, i, orig)
 		}
 		updateChecks(&out, orig, c.Args["nomodel"] != "1", c.Args["file"] != "")
+		if c.Args["nomodel"] != "1" {
+			removeChecks(&out, orig, false, c.Args["remove"])
+		}
 		return out
 
 	case "runes":
@@ -380,7 +383,7 @@ func (prop) Run(c core.Case) core.Outcome {
 		if mutant {
 			// malformed / boundary stream: the model must agree; the property itself only speaks
 			// about well-formed archives, so no oracle beyond "no panic" (framework) applies
-			M("list", "list "+core.Hex(orig), showImage(i, err))
+			M("list", vreq("list "+core.Hex(orig)), showImage(i, err))
 			out.Class = "mutant:" + core.ErrClass(err)
 			if err == nil {
 				out.Class += fmt.Sprintf(",segs=%d", min(len(i.Segs), 3))
@@ -388,11 +391,12 @@ func (prop) Run(c core.Case) core.Outcome {
 				// presentation and write-back are modelled for every accepted image
 				presentChecks(&out, i, orig)
 				updateChecks(&out, orig, true, false)
+				removeChecks(&out, orig, false, c.Args["remove"])
 			}
 			return out
 		}
 		// both sides build the bytes from the recipe: digest + length cross-check the two serializers
-		M("ser+list", "serlist "+c.Args["pre"]+" "+c.Args["post"]+" "+c.Args["fill"]+" "+c.Args["recs"],
+		M("ser+list", vreq("serlist "+c.Args["pre"]+" "+c.Args["post"]+" "+c.Args["fill"]+" "+c.Args["recs"]),
 			fmt.Sprintf("%d %d %s", core.FNV(orig), len(orig), showImage(i, err)))
 		want := wantEntries(recs)
 		// the abstract listing of the Lean reference grammar equals the generator's
@@ -471,6 +475,7 @@ func (prop) Run(c core.Case) core.Outcome {
 		// O: Image.Update on the unmodified archive leaves the bytes alone
 		presentChecks(&out, i, orig)
 		updateChecks(&out, orig, true, true)
+		removeChecks(&out, orig, true, c.Args["remove"])
 		var ts []string
 		for t := range types {
 			ts = append(ts, strings.TrimPrefix(t, "*cbfs."))
